@@ -70,6 +70,68 @@ func (d *DataEOFReader) Read(p []byte) (int, error) {
 	return n, nil
 }
 
+// EagerEOF turns any reader into one that reports io.EOF together with the last bytes it
+// delivers (instead of on a separate, empty Read): both are valid io.Reader behaviour.
+type EagerEOF struct {
+	R    io.Reader
+	peek []byte
+	done bool
+}
+
+func (e *EagerEOF) Read(p []byte) (int, error) {
+	if e.done {
+		return 0, io.EOF
+	}
+	if len(p) == 0 {
+		return 0, nil
+	}
+	n := 0
+	if len(e.peek) > 0 {
+		p[0] = e.peek[0]
+		e.peek = nil
+		n = 1
+	}
+	if n < len(p) {
+		m, err := e.R.Read(p[n:])
+		n += m
+		if err != nil {
+			e.done = err == io.EOF
+			return n, err
+		}
+	}
+	var b [1]byte
+	for {
+		k, err := e.R.Read(b[:])
+		if k == 1 {
+			e.peek = []byte{b[0]}
+			return n, nil
+		}
+		if err != nil {
+			e.done = err == io.EOF
+			return n, err
+		}
+	}
+}
+
+// SegKinds is the number of segmentation kinds Segment understands.
+const SegKinds = 5
+
+// Segment wraps r in one of the transport segmentations: 0 none, 1 one byte per Read, 2 the
+// drawn schedule, 3 the drawn schedule with io.EOF delivered together with the last bytes,
+// 4 unsegmented with io.EOF delivered together with the last bytes.
+func Segment(r io.Reader, kind int, drawn []int) io.Reader {
+	switch kind {
+	case 0:
+		return r
+	case 1, 2:
+		return &SegReader{R: r, Sched: Sched(kind, drawn)}
+	case 3:
+		return &EagerEOF{R: &SegReader{R: r, Sched: Sched(2, drawn)}}
+	default:
+		return &EagerEOF{R: r}
+	}
+}
+
 // ErrSentinel is what fault-injecting transports return.
 type Sentinel struct{ Msg string }
 
